@@ -45,7 +45,7 @@ m("C06-no-reopen-when-no-past", PARAM,
   "            else:\n                pass")
 m("C06-expected-only-string", PARAM, "                instant_info == \"expected\"\n                or isinstance(instant_info, dict)\n                and instant_info.get(\"expected\")", "                instant_info == \"expected\"")
 # ---- C07 -------------------------------------------------------------------
-m("C07-reform-no-deepcopy", REF, "        baseline_parameters_copy = copy.deepcopy(baseline_parameters)", "        baseline_parameters_copy = baseline_parameters")
+m("C07-reform-no-deepcopy", REF, "        parameters_copy = copy.deepcopy(self.parameters)", "        parameters_copy = self.parameters")
 # equivalent / inside a stated don't-care band (see DESIGN 10): C07-cache-key-instant-name
 m("C07-load-parameters-keeps-tree", TBS, "        self.parameters = parameters\n\n    def _get_baseline_parameters_at_instant", "        if self.parameters is None:\n            self.parameters = parameters\n        else:\n            self.parameters.children = parameters.children\n            self.parameters.__dict__.update({k: v for k, v in parameters.children.items()})\n\n    def _get_baseline_parameters_at_instant")
 m("C07-vector-unsorted", VEC, "        subnodes_name = sorted(node._children.keys())", "        subnodes_name = list(node._children.keys())")
